@@ -36,11 +36,22 @@ class V:
         return "V%s" % (self.tag,)
 
 
-def mkE(log, k=-1, exc=0):
+def pick_exc(i):
+    """EXC[i] with explicit forks (a symbolic list index would yield a symbolic type)."""
+    if i == 0:
+        return E1
+    if i == 1:
+        return E2
+    return E3
+
+
+def mkE(log, k=-1, exc=0, k2=-1, exc2=0):
     def E(site, v=None):
         log.append(site)
         if site == k:
-            raise EXC[exc]("fault@%d" % site)
+            raise pick_exc(exc)("fault@%d" % site)
+        if site == k2:
+            raise pick_exc(exc2)("fault2@%d" % site)
         return v
 
     return E
@@ -73,14 +84,24 @@ def mkCM(E, sup):
     return CMf
 
 
-def same(a, b):
+def same(a, b, _depth=0):
     """Observable equality of two results (one per side)."""
+    if _depth > 12:
+        # self-referential containers: compared up to this depth
+        return True
     if isinstance(a, V) or isinstance(b, V):
         return isinstance(a, V) and isinstance(b, V) and a.tag == b.tag
     if a is None or b is None:
         return a is None and b is None
     if isinstance(a, bool) or isinstance(b, bool):
         return isinstance(a, bool) and isinstance(b, bool) and a == b
+    if isinstance(a, CM) or isinstance(b, CM):
+        return isinstance(a, CM) and isinstance(b, CM) and a.site == b.site
+    if isinstance(a, (int, float, str)) and isinstance(b, (int, float, str)):
+        # symbolic scalars: compare directly (callable()/hasattr() would realise them)
+        return a == b
+    if isinstance(a, (int, float, str)) or isinstance(b, (int, float, str)):
+        return False
     if isinstance(a, BaseException) or isinstance(b, BaseException):
         return type(a).__name__ == type(b).__name__
     if isinstance(a, (list, tuple)) or isinstance(b, (list, tuple)):
@@ -89,14 +110,14 @@ def same(a, b):
         if len(a) != len(b):
             return False
         for x, y in zip(a, b):
-            if not same(x, y):
+            if not same(x, y, _depth + 1):
                 return False
         return True
     if isinstance(a, dict) or isinstance(b, dict):
         if not (isinstance(a, dict) and isinstance(b, dict)) or len(a) != len(b):
             return False
         for (k1, v1), (k2, v2) in zip(a.items(), b.items()):
-            if not (same(k1, k2) and same(v1, v2)):
+            if not (same(k1, k2, _depth + 1) and same(v1, v2, _depth + 1)):
                 return False
         return True
     if isinstance(a, (set, frozenset)) or isinstance(b, (set, frozenset)):
